@@ -17,7 +17,7 @@ INFO = {
     "outside": ["policy `interactive` (excluded by the property)", "tree pairs outside the mutation list", "edit sequences longer than one operation after loading"],
     "stubs": ["memfs", "report recorder on the loading instance"],
 }
-BUDGET = {"quick": 240, "thorough": 800}
+BUDGET = {"quick": 360, "thorough": 800}
 
 CONF = "/m/sdkconfig"
 
@@ -170,6 +170,32 @@ def clause2(ctx, *args):
                 continue
             if s_.str_value != ku.syms[s_.name].str_value:
                 return False
+    if policy == "sdkconfig" and "target" in ctx:
+        # a stored default that says nothing new is droppable: if the file without the entry of option D already gives D
+        # its stored value, the file with the entry must give the same configuration -- now and after one further
+        # operation (D keeps following whatever its Kconfig default follows; nothing gets pinned)
+        n = ctx["nstate"]
+        nslots = ST.layout(tnew)
+        tgt = [sl for sl in nslots if sl.name == slots[ctx["target"]].name]
+        odom = Dom.from_json(ctx["odom"])
+        done = 0
+        for name, v in marked:
+            d = kn.syms.get(name)
+            if d is None or not d.nodes or d.choice is not None or not any(nd.prompt for nd in d.nodes):
+                continue
+            if done >= 3:
+                break
+            done += 1
+            fs.put("/m/dropone", "".join(x.config_string for x in k.unique_defined_syms if x.config_string and x.name != name))
+            kd, _ = _load(tnew, fs, "/m/dropone", policy)
+            if kd.syms[name].str_value != v or ST.snapshot(kd) != ST.snapshot(kn):
+                continue  # the entry does carry information (a stale value): C08's other clauses speak about it
+            if tgt and tgt[0].name != name:
+                k1, _ = _load(tnew, fs, CONF, policy)
+                _apply_op(k1, tgt[0], odom, args[n], args[n + 1])
+                _apply_op(kd, tgt[0], odom, args[n], args[n + 1])
+                if ST.snapshot(k1) != ST.snapshot(kd):
+                    return False
     # entries for options that are promptless in the new tree never pin a value
     if policy == "kconfig":
         n = ctx["nstate"]
@@ -213,8 +239,20 @@ def jobs(tier, seed, excluded=()):
         slots = ST.layout(base)
         for policy in ("sdkconfig", "kconfig"):
             out += state_jobs("C08", "vk.props.c08", "clause2", [base], dom, budget * 2, nparts, tmo, rng, {"new": new, "policy": policy}, tag="c2-%s-%s" % (new.split(":")[-1], policy))
-            if policy == "kconfig":
+            if True:
                 targets = [i for i, sl in enumerate(slots) if sl.kind != "pick"]
-                t = rng.choice(targets)
-                out += state_jobs("C08", "vk.props.c08", "clause2", [base], dom, budget // 2 + 5, 1, tmo, rng, {"new": new, "policy": policy, "target": t, "odom": odom.to_json()}, tag="c2-%s-op-%s" % (new.split(":")[-1], slots[t].name), extra_params=[("ok", "int"), ("ov", "int")], extra_pre="0 <= ok <= 3 and " + op_value_bounds(slots[t], odom), extra_samples=lambda r: [r.randint(0, 3), 0], must_free=lambda a, b, t=t: [b[t].name])
+                for t in (targets if base.startswith("E_") else [rng.choice(targets)]):
+                  out += state_jobs("C08", "vk.props.c08", "clause2", [base], dom, budget // 2 + 5, 1, tmo, rng, {"new": new, "policy": policy, "target": t, "odom": odom.to_json()}, tag="c2-%s-%s-op-%s" % (new.split(":")[-1], policy, slots[t].name), extra_params=[("ok", "int"), ("ov", "int")], extra_pre="0 <= ok <= 3 and " + op_value_bounds(slots[t], odom), extra_samples=lambda r: [r.randint(0, 3), 0], must_free=lambda a, b, t=t: [b[t].name])
+    # the all-defaults corner (every entry of the old file is default-marked) with one further operation per option
+    for new, (base, _) in mutate.VERSIONS.items():
+        slots = ST.layout(base)
+        cand = [t for t, sl in enumerate(slots) if sl.kind != "pick"]
+        if tier == "quick" and not base.startswith("E_"):
+            cand = sorted(rng.sample(cand, min(3, len(cand))))
+        for t in cand:
+            sl = slots[t]
+            fixed = {x.name: None for x in slots if x.name != sl.name}
+            sp, spre = ST.params_for(slots, dom, fixed=fixed)
+            ctx = {"tree": base, "dom": dom.to_json(), "nstate": len(sp), "fixed": fixed, "new": new, "policy": "sdkconfig", "target": t, "odom": odom.to_json()}
+            out.append(Job("C08", "C08-%s-c2-%s-alldef-op-%s" % (base, new.split(":")[-1], sl.name), "vk.props.c08", "clause2", ctx, sp + [("ok", "int"), ("ov", "int")], spre + " and 0 <= ok <= 3 and " + op_value_bounds(sl, odom), timeout=tmo, samples=[[0] * len(sp) + [1, 0]], tree=base))
     return out
